@@ -515,6 +515,21 @@ func (s *c07Scen) create(now time.Time, cl *tibctmtypes.ClientState, co *tibctmt
 	}
 }
 
+// upgrade goes through the real Keeper.UpgradeClient (client state + consensus state at the new latest
+// height; no processed time / iteration key).  withMetadata additionally runs ClientState.Initialize,
+// which is what writes the metadata when a client is created.
+func (s *c07Scen) upgrade(now time.Time, cl *tibctmtypes.ClientState, co *tibctmtypes.ConsensusState, withMetadata bool) {
+	ctx := s.ctx.WithBlockTime(now)
+	if err := s.env.k.UpgradeClient(ctx, s.name, cl, co); err != nil {
+		s.env.t.Fatalf("UpgradeClient: %v", err)
+	}
+	if withMetadata {
+		if err := cl.Initialize(ctx, s.env.cdc, s.store(ctx), co); err != nil {
+			s.env.t.Fatalf("Initialize: %v", err)
+		}
+	}
+}
+
 func c07HeaderSummary(a c07Abs, v c07Verdict) string {
 	flags := ""
 	for _, s := range a.Sigs {
